@@ -1513,3 +1513,11 @@ V(id='c17-acot-terms-short', prop='C17', file='mpmath/libmp/libelefun.py',
 V(id='c17-benign-more-terms', prop='C17', file='mpmath/libmp/libelefun.py',
   old="    N = int(1.1*prec/math.log(prec) + 20)", new="    N = int(1.2*prec/math.log(prec) + 25)",
   expect='silent')
+
+# ------------------------------------------------ C34 O-R7 -------
+V(id='c34-tol-bits-natural-log', prop='C34', file='mpmath/calculus/odes.py',
+  old="        tol_prec = int(-ctx.log(tol, 2))+10", new="        tol_prec = int(-ctx.log(tol))+10",
+  expect='fire:O-R7:odefun')
+V(id='c34-benign-tol-bits-ln-over-ln2', prop='C34', file='mpmath/calculus/odes.py',
+  old="        tol_prec = int(-ctx.log(tol, 2))+10", new="        tol_prec = int(-ctx.log(tol)/ctx.log(2))+10",
+  expect='silent')
